@@ -63,6 +63,9 @@ enum Field {
     /// flag byte that skips c iff 0, size byte announcing the size of c, c = byte block (3 nodes): when c is skipped the
     /// announced size (1) is never used
     SizeOfSkipped(bool),
+    /// an EMPTY byte block whose option skips the next field (a U16BE), then that field, then a u8 (3 nodes): a field that
+    /// weighs nothing still has its say
+    EmptySkipper,
     /// trailing optional U16LE, present or absent (last only)
     OptU16(bool),
     /// trailing byte block reading to the end (last only)
@@ -75,7 +78,7 @@ impl Field {
     fn nodes(&self) -> usize {
         match self {
             Field::SkipTwo(..) => 4,
-            Field::TrameU16U8 | Field::TrameOptMid(_) | Field::Nested | Field::SkipGap(_) | Field::SkipChain(..) | Field::SizedSkip(_) | Field::NestedSize(_) | Field::SizeOfSkipped(_) => 3,
+            Field::TrameU16U8 | Field::TrameOptMid(_) | Field::Nested | Field::SkipGap(_) | Field::SkipChain(..) | Field::SizedSkip(_) | Field::NestedSize(_) | Field::SizeOfSkipped(_) | Field::EmptySkipper => 3,
             Field::SizedBytes(_) | Field::SizedArray(_) | Field::SizedMismatch(..) | Field::SkipPair(_) | Field::SkipBack(_) => 2,
             _ => 1,
         }
@@ -131,6 +134,7 @@ fn field_menu() -> Vec<Field> {
         Field::NestedSize(3),
         Field::SizeOfSkipped(true),
         Field::SizeOfSkipped(false),
+        Field::EmptySkipper,
         Field::OptU16(true),
         Field::OptU16(false),
         Field::Rest(0),
@@ -174,7 +178,7 @@ pub fn structured_messages() -> Vec<(String, Component, Vec<u8>)> {
     }
     // wide records: a skippable / size-dependent field behind 31 and behind 64 one-byte fields
     for pad in [Field::Pad(31), Field::Pad(64)] {
-        for f in [Field::SkipPair(false), Field::SkipPair(true), Field::SkipGap(false), Field::SizedBytes(3), Field::SkipTwo(false, true), Field::SizeOfSkipped(false)] {
+        for f in [Field::SkipPair(false), Field::SkipPair(true), Field::SkipGap(false), Field::SizedBytes(3), Field::SkipTwo(false, true), Field::SizeOfSkipped(false), Field::EmptySkipper] {
             shapes.push(vec![pad.clone(), f, Field::Rest(2)]);
         }
     }
@@ -369,6 +373,23 @@ fn build(shape: &[Field], variant: usize) -> Built {
                     w.u16be(v);
                     leaves.push(Leaf::H(v));
                 }
+            }
+            Field::EmptySkipper => {
+                let target = format!("f{}b", i);
+                let tail = format!("f{}c", i);
+                let v = nx8();
+                let skip = |t: String| move |_: &Vec<u8>| MessageOption::SkipField(t.clone());
+                msg.insert(name.clone(), Box::new(DynOption::new(Vec::<u8>::new(), skip(target.clone()))));
+                msg.insert(target.clone(), Box::new(U16::BE(0x1234)));
+                msg.insert(tail.clone(), Box::new(v));
+                // (written and measured only: an empty byte block in front of other fields cannot be read back — it would take
+                // the rest of the input)
+                empty.insert(name, Box::new(DynOption::new(Vec::<u8>::new(), skip(target.clone()))));
+                empty.insert(target, Box::new(U16::BE(0)));
+                empty.insert(tail, Box::new(0u8));
+                w.u8(v);
+                leaves.push(Leaf::S(vec![]));
+                leaves.push(Leaf::B(v));
             }
             Field::SizeOfSkipped(present) => {
                 let flag: u8 = if *present { 1 } else { 0 };
@@ -808,7 +829,7 @@ impl Prop for C18 {
         json!({"idx": idx, "case": self.cases[idx as usize]})
     }
     fn rule(&self) -> String {
-        "cases: [model] every message shape of <=4 nodes (<=5 thorough) over {u8, U16/U32 LE/BE, fixed byte block, Check, Trame, Trame with an absent / present optional element in front of data, nested Component, 31 / 64 one-byte fields in a row (later fields at positions >= 32 / >= 64 of the record), size-dependent byte block and array (DynOption Size), skippable field (DynOption SkipField: adjacent target, distant target, two skips pending at once, a skip naming an earlier field, a skipped field that itself carries a skip), a size-dependent field that itself carries a skip or a size for the next field, a size announced for a field that is skipped, trailing Option present/absent, trailing rest-of-input block, trailing array} x 2 (5) value variants from {0,1,7F,80,FF,...}: length()==bytes written==reference bytes, read into an empty same-shape message (whose length() was asked first) reproduces every leaf and consumes exactly; a length field announcing another size than its block is written and measured by the block; after the round trip a plain record whose fields bear the same names is read (nothing noted for the earlier message applies to it), and the same bytes are read once more into the now filled message, which must still report the length it writes; [per] every length 0..0x7FFF, integers (all of u16, u32 boundaries; all 2^32 in thorough), integer16 (value,minimum) boundary pairs and whole rows, every nibble-valid 6-arc OID over {0,1,15,16,127,128,255}, octet strings at every length boundary, numeric strings; [asn1] INTEGER/ENUMERATED/OCTET STRING boundaries and the tagged shapes of MCS/CredSSP against an independent DER codec; [gcc] the client core data block for 2 versions x 3 screen sizes x 3 layouts x 4 names x 5 selected protocols against the reference parser (each parameter is carried as given), conference create request for block sizes across the PER length boundaries, every response of the reference encoder over versions x optional SC_CORE fields x 0..31 channels x 6 block orders x unknown block (none / 8-byte body / empty body between the blocks / empty body at the end) x node ids. Non-trivial: every case except single-leaf model shapes.".into()
+        "cases: [model] every message shape of <=4 nodes (<=5 thorough) over {u8, U16/U32 LE/BE, fixed byte block, Check, Trame, Trame with an absent / present optional element in front of data, nested Component, 31 / 64 one-byte fields in a row (later fields at positions >= 32 / >= 64 of the record), size-dependent byte block and array (DynOption Size), skippable field (DynOption SkipField: adjacent target, distant target, two skips pending at once, a skip naming an earlier field, a skipped field that itself carries a skip), a size-dependent field that itself carries a skip or a size for the next field, a size announced for a field that is skipped, an empty field whose option skips the next one (written and measured only), trailing Option present/absent, trailing rest-of-input block, trailing array} x 2 (5) value variants from {0,1,7F,80,FF,...}: length()==bytes written==reference bytes, read into an empty same-shape message (whose length() was asked first) reproduces every leaf and consumes exactly; a length field announcing another size than its block is written and measured by the block; after the round trip a plain record whose fields bear the same names is read (nothing noted for the earlier message applies to it), and the same bytes are read once more into the now filled message, which must still report the length it writes; [per] every length 0..0x7FFF, integers (all of u16, u32 boundaries; all 2^32 in thorough), integer16 (value,minimum) boundary pairs and whole rows, every nibble-valid 6-arc OID over {0,1,15,16,127,128,255}, octet strings at every length boundary, numeric strings; [asn1] INTEGER/ENUMERATED/OCTET STRING boundaries and the tagged shapes of MCS/CredSSP against an independent DER codec; [gcc] the client core data block for 2 versions x 3 screen sizes x 3 layouts x 4 names x 5 selected protocols against the reference parser (each parameter is carried as given), conference create request for block sizes across the PER length boundaries, every response of the reference encoder over versions x optional SC_CORE fields x 0..31 channels x 6 block orders x unknown block (none / 8-byte body / empty body between the blocks / empty body at the end) x node ids. Non-trivial: every case except single-leaf model shapes.".into()
     }
     fn assumptions(&self) -> Vec<String> {
         vec![
@@ -839,7 +860,7 @@ impl Prop for C18 {
                 if b.msg.length() != bytes.len() as u64 {
                     return fail("model-length-differs-from-bytes-written", format!("length() {} bytes {}", b.msg.length(), bytes.len()));
                 }
-                if shape.iter().any(|f| matches!(f, Field::SizedMismatch(..))) {
+                if shape.iter().any(|f| matches!(f, Field::SizedMismatch(..) | Field::EmptySkipper)) {
                     return Outcome::pass("model-write-only", true);
                 }
                 let mut empty = b.empty;
